@@ -173,9 +173,16 @@ def _user_exp():
     return exp
 
 
+def _maxnorm(v):
+    v = np.asarray(v, dtype=np.float64)            # looks at the whole vector: f(y) and f(p) are two different normalisations
+    return v / v.max()
+
+
 def _fn(name):
     if name is None or name in ("log", "exp"):
         return name
+    if name == "maxnorm":
+        return _maxnorm
     if name == "sqrt":
         return np.sqrt
     if name == "numpy.log":
@@ -202,6 +209,8 @@ def _apply(name, v):
         return np.log1p(v)
     if name == "user-exp":
         return np.expm1(v) * 0.5
+    if name == "maxnorm":
+        return _maxnorm(v)
     return v * 2.0 + 1.0
 
 
@@ -245,7 +254,7 @@ def _r2_cases(draw, tier="quick"):
     y = draw(st.lists(pos, min_size=n, max_size=n))
     if len(set(y)) == 1:
         y[0] = y[0] + 1.0
-    names = [None, "log", "exp", "sqrt", "affine", "numpy.log", "user-log", "user-exp"]
+    names = [None, "log", "exp", "sqrt", "affine", "numpy.log", "user-log", "user-exp", "maxnorm", "maxnorm"]
     return dict(y=y, p=draw(st.lists(pos, min_size=n, max_size=n)), tr=draw(st.sampled_from(names)), inv_tr=draw(st.sampled_from(names)),
                 w=draw(st.one_of(st.none(), st.lists(st.integers(1, 16).map(lambda v: v / 4.0), min_size=n, max_size=n))),
                 outputs=k, multioutput=draw(st.sampled_from(["uniform_average", "uniform_average", "raw_values", "variance_weighted"])))
